@@ -54,3 +54,16 @@ Example C01_example_is_well_formed :
              VObj [([195; 169], VArr [VNull; VNum (NFloat 4607182418800017408)])]]) = true.
 Proof. vm_compute. reflexivity. Qed.
 Print Assumptions C01_example_is_well_formed.
+
+(* numbers take the SHORTEST of the 1/2/3/5/9 byte forms: no byte string that Number::decode reads as the same number is
+   shorter than what compact_encode writes (NumCodecProofs.v; also C18_compact_encode_is_the_shortest_form) *)
+From JB Require Import NumCodecProofs.
+Theorem C01_compact_encode_is_the_shortest_form :
+  forall n, num_in_range n = true ->
+  In (length (compact_encode n)) [1; 2; 3; 5; 9]%nat /\
+  forall bs m, bytes_ok bs -> num_decode bs = Ok m -> normalise_num m = normalise_num n ->
+               (length (compact_encode n) <= length bs)%nat.
+Proof.
+  intros n Hr. split; [apply compact_encode_length_cases|]. intros bs m. apply compact_encode_shortest. exact Hr.
+Qed.
+Print Assumptions C01_compact_encode_is_the_shortest_form.
